@@ -438,15 +438,20 @@ def h_param_top_cv(prog, rng):
     cands = []
     for f in prog.exported_functions():
         for k, p in enumerate(f.ftype.params):
-            if isinstance(p, Builtin):
+            # a top-level qualifier can be added to a parameter of any object type; through a typedef only when the
+            # typedef does not name an array or function type (there the qualifier would apply to the elements / be invalid)
+            if isinstance(p, (Builtin, Pointer, Enum)) or (isinstance(p, Record) and p.name) \
+                    or (isinstance(p, Typedef) and isinstance(progen.resolve(p), (Builtin, Pointer, Enum))):
                 cands.append((f, k))
     if not cands:
         return None
     f, k = rng.choice(cands)
     q = prog.clone()
     f2 = [x for x in q.functions if x.name == f.name][0]
-    f2.ftype.params[k] = Qualified(f2.ftype.params[k], const=True)
-    return q, Expect("param-top-cv", affected=[f.name], entity=f2.pnames[k])
+    const, volatile = rng.choice([(True, False), (True, False), (False, True), (True, True)])
+    f2.ftype.params[k] = Qualified(f2.ftype.params[k], const=const, volatile=volatile)
+    return q, Expect("param-top-cv", affected=[f.name], entity=f2.pnames[k],
+                     detail="%s%s on %s" % ("const " if const else "", "volatile" if volatile else "", type(f.ftype.params[k]).__name__))
 
 
 HARMLESS = {
@@ -577,6 +582,41 @@ SYMBOL = {"add-default-version": s_add_default_version, "change-version-node": s
           "add-default-version-variable": s_add_default_version_variable,
           "change-version-node-variable": s_change_version_node_variable,
           "add-old-version": s_add_old_version, "drop-old-version": s_drop_old_version}
+
+# ------------------------------------------------------------------ layout-preserving member (un)naming
+
+
+def x_name_anonymous_member(prog, rng):
+    """'union { int i; float f; };' becomes 'union { int i; float f; } value;' (or the reverse): same layout, the
+    data member changes from anonymous to named."""
+    cands = []
+    for t, users in _mutable_records(prog):
+        for h in _all_field_lists(t, structs_only=False):
+            for k, f in enumerate(h.fields):
+                if isinstance(f.type, Record) and f.type.name is None and f.bits is None:
+                    cands.append((t, users, id(h), k))
+    if not cands:
+        return None
+    t, users, _hid, _k = rng.choice(cands)
+    q = prog.clone()
+    t2 = q.find_type(t.name)
+    hs = []
+    for h in _all_field_lists(t2, structs_only=False):
+        for k, f in enumerate(h.fields):
+            if isinstance(f.type, Record) and f.type.name is None and f.bits is None:
+                hs.append((h, k))
+    h, k = rng.choice(hs)
+    f = h.fields[k]
+    if f.name is None:
+        f.name = "mm_%s_n%d" % (q.nonce, rng.randrange(1000))
+        kind = "name-anonymous-member"
+    else:
+        f.name = None
+        kind = "unname-member"
+    return q, Expect(kind, affected=[u.name for u in users], type_name=t.key(), entity=f.name)
+
+
+EXTRA = {"name-anonymous-member": x_name_anonymous_member}
 
 MIXED = {}
 MIXED.update(BREAKING)
